@@ -39,7 +39,10 @@ func genCGDoc(s Src, withMap bool) ([]CGObject, string) {
 	// Names are valid identifiers drawn from pools that contain capitalisation variants of the same word and
 	// names that are prefixes of each other: orderings that only agree on "easy" names must not pass. Two names
 	// of one map never produce the same Go identifier (the generator upper-cases the first letter).
-	objPool := []string{"Obj", "pod", "Pod", "POD", "podSpec", "podspec", "volume_spec", "Volume_Spec", "X", "x1", "metaData", "metadata", "MetaData", "a", "B"}
+	objPool := []string{"Obj", "pod", "Pod", "POD", "podSpec", "podspec", "volume_spec", "Volume_Spec", "X", "x1", "metaData", "metadata", "MetaData", "a", "B",
+		// valid identifiers that happen to be type IDs: a reference to such an object must still be typed with
+		// the object's name
+		"integer", "float", "string", "Integer"}
 	propPool := []string{"name", "Name", "size", "apiVersion", "apiversion", "ApiVersion", "APIVERSION", "host_path", "hostPath", "hostpath", "z", "Z", "userID", "userId", "userid", "USERID", "n", "N1", "burst", "Burst"}
 	// Names of one map are distinct strings; two of them may well map to the same Go identifier (the
 	// generator upper-cases the first letter): "burst" and "Burst" are two properties and need two fields.
